@@ -17,9 +17,9 @@ Open Scope string_scope.
    Hypothesis ok_along (JsonLD/Sim.v), for every node object on the path: every key of the node,
    its @type values, the next path term and every term its contexts refer to without defining
    it have the same definition in the context the node's type-scoped ancestors are reverted to
-   ("no type-scoped (re)definition visible in the nested node": boundary of D8), and the
-   members of an indexed array are indistinguishable for the resolver (jsim: boundary of the
-   member-0 walk).  Without it the statement is refuted below. *)
+   ("no type-scoped (re)definition visible in the nested node": boundary of D8, known finding).
+   Without it the statement is refuted below.  (Since fix 8c11b39 no condition on the members
+   of an indexed array is needed: the resolver continues in the selected member.) *)
 Theorem C11_doc_vs_store :
   forall ld m pi p p' dt v fs,
   path_from_document ld (JObj m) pi = Ok p ->
@@ -149,20 +149,40 @@ Theorem C11_doc_vs_store_refuted_type_scoped :
 Proof. exact doc_vs_store_refuted_type_scoped. Qed.
 Print Assumptions C11_doc_vs_store_refuted_type_scoped.
 
-(* refuted on the current tree: D14 (numeric segment never checked) *)
-Theorem C11_numeric_segment_refuted :
+(* D14, fixed by 8c11b39: a numeric segment selects a member of the array found at that
+   position of the document, and the walk continues in that member ... *)
+Theorem C11_numeric_segment :
+  forall ld i rest G doc acc p,
+  is_num i = true ->
+  pfd ld (i :: rest) G doc acc = Ok p ->
+  exists l x more, doc = JArr l /\ nth_error l (Z.to_nat (num_val i)) = Some x /\
+                   pfd ld rest G x false = Ok more /\ p = PInt (num_val i) :: more.
+Proof. exact numeric_segment_selects_member. Qed.
+Print Assumptions C11_numeric_segment.
+
+(* ... and anything else (not an array, out of range) is an error *)
+Theorem C11_numeric_segment_errors :
+  forall ld i rest G doc acc,
+  is_num i = true ->
+  (forall l, doc <> JArr l) \/ (exists l, doc = JArr l /\ nth_error l (Z.to_nat (num_val i)) = None) ->
+  exists t, pfd ld (i :: rest) G doc acc = Err t.
+Proof. exact numeric_segment_errors. Qed.
+Print Assumptions C11_numeric_segment_errors.
+
+(* still refuted (D31, known finding): a multi-member array addressed without its index *)
+Theorem C11_missing_index_refuted :
   exists ld doc pi p,
     path_from_document ld doc pi = Ok p /\
     (exists t, doc_field ld doc pi = Err t) /\
     (exists fs, facts ld doc = Ok fs /\ forall f, In f fs -> f_path f <> p).
-Proof. exact numeric_segment_refuted. Qed.
-Print Assumptions C11_numeric_segment_refuted.
+Proof. exact missing_index_refuted. Qed.
+Print Assumptions C11_missing_index_refuted.
 
-(* refuted on the current tree: the walk continues in member 0 of an array *)
-Theorem C11_array_member_refuted :
+(* still refuted: index 0 on a one-member array of the source document *)
+Theorem C11_single_member_index_refuted :
   exists ld doc pi p,
     path_from_document ld doc pi = Ok p /\
-    (exists p' dt v, doc_field ld doc pi = Ok (p', dt, v) /\ p' <> p) /\
+    (exists t, doc_field ld doc pi = Err t) /\
     (exists fs, facts ld doc = Ok fs /\ forall f, In f fs -> f_path f <> p).
-Proof. exact array_member_refuted. Qed.
-Print Assumptions C11_array_member_refuted.
+Proof. exact single_member_index_refuted. Qed.
+Print Assumptions C11_single_member_index_refuted.
